@@ -4,6 +4,7 @@ import Tea.Gen.KeyTable
 import Tea.Time.Model
 import Tea.Render.Model
 import Tea.VT.Term
+import Tea.Render.Program
 
 open Tea Tea.Driver Tea.Input
 
@@ -128,6 +129,39 @@ def stepVT (line : String) : String :=
       termDump (go {} t1 ops)
     | _, _ => "bad-op"
 
+open Tea.Render in
+def parseModeCmd : String → Option ModeCmd
+  | "enterAlt" => some .enterAlt | "exitAlt" => some .exitAlt | "mouseCell" => some .mouseCell
+  | "mouseAll" => some .mouseAll | "disableMouse" => some .disableMouse | "paste" => some .paste
+  | "noPaste" => some .noPaste | "focus" => some .focus | "noFocus" => some .noFocus
+  | "show" => some .show | "hide" => some .hide | "clear" => some .clear
+  | _ => none
+
+open Tea.Render Tea.VT in
+/-- `glue`: `<option bits> <quit|ctx|kill> <mode cmd>...` → the DECSET/DECRST sequence of the whole
+run (or, for kill, the final modes: two shutdowns may interleave in the implementation) -/
+def stepGlue (line : String) : String :=
+  match words line with
+  | bitsS :: exitS :: cmdsS =>
+    match bitsS.toNat?, cmdsS.mapM parseModeCmd with
+    | some bits, some cmds =>
+      let all := bits / 4 % 2 == 1
+      let o : Opts := { alt := bits % 2 == 1, cell := bits / 2 % 2 == 1 && !all, all := all,
+                        noPaste := bits / 8 % 2 == 1, focus := bits / 16 % 2 == 1 }
+      let k : Option ExitKind := match exitS with
+        | "quit" => some .quit | "ctx" => some .ctx | "kill" => some .killApi | _ => none
+      match k with
+      | none => "bad-op"
+      | some k =>
+        let (_, out) := runProgram o cmds k
+        if exitS == "kill" then
+          let t := applyOps ({ w := 80, h := 24 } : Term) out
+          s!"final alt={t.onAlt} vis={t.cursorVis} m1002={t.m1002} m1003={t.m1003} m1006={t.m1006} m1004={t.m1004} m2004={t.m2004}"
+        else
+          " ".intercalate ((modeOpsOf out).map fun (n, v) => s!"{n}{if v then "h" else "l"}")
+    | _, _ => "bad-op"
+  | _ => "bad-op"
+
 partial def loop (h : IO.FS.Stream) (out : IO.FS.Stream) (f : String → String) : IO Unit := do
   let line ← h.getLine
   if line.isEmpty then return ()
@@ -144,4 +178,5 @@ def main (args : List String) : IO UInt32 := do
   | ["every"] => loop stdin stdout stepEvery; return 0
   | ["render"] => loop stdin stdout stepRender; return 0
   | ["vt"] => loop stdin stdout stepVT; return 0
+  | ["glue"] => loop stdin stdout stepGlue; return 0
   | _ => IO.eprintln "usage: driver <stream>"; return 2
